@@ -169,20 +169,22 @@ def chkOk (cx : Ctx) (sc : Bytes) : Bytes → Bytes → Prop :=
   fun s k => cx.checker.checkECDSA s k sc cx.sigversion = .ok true
 
 /-- the loop answers `true` whenever the signatures are aligned with the keys, every signature and key passes its
-    encoding check and the oracle has an answer for every pair -/
-theorem multisigLoop_aligned (cx : Ctx) (sc : Bytes) : ∀ (keys sigs : List Bytes) (fuel : Nat),
+    encoding check, the oracle has an answer for every pair and the fuel exceeds the number of keys (Core's loop runs at
+    most once per key; `execMultisig` gives `nKeys + nSigs + 1`) -/
+theorem multisigLoop_aligned (cx : Ctx) (sc : Bytes) : ∀ (keys sigs : List Bytes) (fuel : Nat), keys.length < fuel →
     Aligned (chkOk cx sc) sigs keys →
     (∀ s ∈ sigs, checkSignatureEncoding cx.flags s = .ok ()) →
     (∀ k ∈ keys, checkPubKeyEncoding cx.flags cx.sigversion k = .ok ()) →
     (∀ s ∈ sigs, ∀ k ∈ keys, ∃ b, cx.checker.checkECDSA s k sc cx.sigversion = .ok b) →
     multisigLoop cx sc fuel sigs keys = .ok true
-  | _, _, 0, _, _, _, _ => rfl
-  | _, [], _ + 1, _, _, _, _ => rfl
-  | [], _ :: _, _ + 1, ha, _, _, _ => by cases ha
-  | k :: ks, s :: ss, fuel + 1, ha, henc, hpke, htot => by
+  | _, _, 0, hf, _, _, _, _ => by omega
+  | _, [], _ + 1, _, _, _, _, _ => rfl
+  | [], _ :: _, _ + 1, _, ha, _, _, _ => by cases ha
+  | k :: ks, s :: ss, fuel + 1, hf, ha, henc, hpke, htot => by
+    have hf' : ks.length < fuel := by simp only [List.length_cons] at hf; omega
     obtain ⟨b, hb⟩ := htot s (by simp) k (by simp)
     have hrec := fun sigs' (h : Aligned (chkOk cx sc) sigs' ks) (hs : ∀ x ∈ sigs', x ∈ s :: ss) =>
-      multisigLoop_aligned cx sc ks sigs' fuel h (fun x hx => henc x (hs x hx)) (fun x hx => hpke x (by simp [hx]))
+      multisigLoop_aligned cx sc ks sigs' fuel hf' h (fun x hx => henc x (hs x hx)) (fun x hx => hpke x (by simp [hx]))
         (fun x hx y hy => htot x (hs x hx) y (by simp [hy]))
     unfold multisigLoop
     simp only [henc s (by simp), hpke k (by simp), hb, bind, Except.bind]
